@@ -264,6 +264,13 @@ def run(ctx):
         ctx.notes.append("VERIF_C15_REPAIRED=1: model of the proposed repair, staleness obligation skipped")
     ctx.obligation("cencoding.pyx _assemble_objects is the source embedded in cencoding.c (DESIGN 4.5)", not stale,
                    "source and compiled code differ; the property is shown for the compiled code only: %r" % (stale[:5],))
+    if not ctx.quick():
+        # thorough tier: the independent checker re-verifies the compiled C15 proof files (DESIGN 4.6)
+        rc, out = C.run(["coqchk", "-silent", "-o", "-Q", os.path.join(C.COQ, "theories"), "Pq",
+                         "Pq.Proofs.CAssembleFixedProofs", "Pq.Proofs.NestedMapProofs", "Pq.Proofs.NestedInvProofs"],
+                        timeout=1500, cwd=C.COQ)
+        ctx.obligation("coqchk -o on the C15 proof files: no axioms, no type-in-type, no assumed positivity / guardedness",
+                       rc == 0 and "Axioms: <none>" in out and out.count("<none>") >= 4, out[-1500:])
     C.use_shadow()          # the parent only uses the thrift classes (file writer); all reads/calls happen in workers
     pq = C.Pqref()
     w = Worker()
